@@ -13,7 +13,7 @@ static mzd_t *cm(int r, int c) { mzd_t *M = mzd_init(r, c); vfill_mixed(M, 0, 0,
 void harness(void) {
   verif_die_expected = 1;
   vlcg_seed(VSEED);
-  verif_init(8); /* not part of the scenario: code books exist before any call (library constructor) */
+  verif_init(4); /* not part of the scenario: code books exist before any call (library constructor) */
 #if SCEN == 0 /* create + window + free */
   mzd_t *A = mzd_init(3, 70); OKM(A);
   mzd_t *W = mzd_init_window(A, 1, 64, 3, 70); VASSERT(W != NULL && W->data != NULL, "window complete");
